@@ -171,3 +171,25 @@ Theorem C07_apply_touch_example :
   a_sleeps a = Some 4 /\ a_touches a = true /\ apply_responses a = [Some "9"%string] /\ apply_rv a = Some "9"%string.
 Proof. exact ex_apply_touch. Qed.
 Print Assumptions C07_apply_touch_example.
+
+(* --- how the wait can end: by stream pressure (then not consistent: no handlers) or exactly at consistency_time;
+       re-check delays of daemons/timers being stopped (or any other delay) cannot end it --- *)
+Theorem C07_wait_ends_by_pressure_or_deadline : forall g ct, g_ctime g = Some ct -> o_slept (gate g) = true ->
+  g_now g < ct ->
+  (exists tp, g_press g = Some tp /\ tp < ct /\ o_until (gate g) = Z.max (g_now g) tp /\
+              (g_required g = true -> o_go (gate g) = false))
+  \/ (o_until (gate g) = ct /\ (forall tp, g_press g = Some tp -> ct <= tp)).
+Proof. exact wait_ends_by_pressure_or_deadline. Qed.
+Print Assumptions C07_wait_ends_by_pressure_or_deadline.
+
+Theorem C07_wait_ignores_other_delays : forall d1 d2 c go m b o ct pie low now press,
+  match gate_case_sp d1 c go m b o ct pie low now press, gate_case_sp d2 c go m b o ct pie low now press with
+  | (s1, u1, r1, m1, _), (s2, u2, r2, m2, _) => s1 = s2 /\ u1 = u2 /\ r1 = r2 /\ m1 = m2
+  end.
+Proof. exact wait_ignores_other_delays. Qed.
+Print Assumptions C07_wait_ignores_other_delays.
+
+Theorem C07_wait_deadline_example : let g := mkG true false (Some 124) true true 100 None in
+  o_slept (gate g) = true /\ o_until (gate g) = 124 /\ o_go (gate g) = true.
+Proof. exact ex_wait_deadline. Qed.
+Print Assumptions C07_wait_deadline_example.
